@@ -322,12 +322,19 @@ func H_C02_node() {
 		vCover("node-ok")
 		return
 	}
-	res, err := u.idx.NewSearch().WithNode(id).WithK(k).Execute()
+	ns := u.idx.NewSearch().WithNode(id).WithK(k)
+	res, err := ns.Execute()
 	e := u.m.find(id)
 	if e == nil || !e.live {
 		vAssert(err != nil, "unknown-or-removed-node-is-error")
 		vCover("node-error")
 		return
+	}
+	// the same search object executed again answers the same (nothing is carried over from the first call)
+	resAgain, errAgain := ns.Execute()
+	vAssert((err == nil) == (errAgain == nil), "second-execute-same-error")
+	if err == nil && errAgain == nil {
+		vSameResults(res, resAgain, "second-execute-same-result")
 	}
 	res2, err2 := u.idx.NewSearch().WithQuery(vCopy(e.vec)).WithK(k).Execute()
 	vAssert((err == nil) == (err2 == nil), "node-equals-vector-query-error")
